@@ -43,6 +43,7 @@ type Cfg struct {
 	Idle        bool // the producer goes idle after its last element instead of closing the input
 	Any         bool // the element type is `any` and every other element is a nil interface value
 	Background  bool // the stage runs under context.Background() (never cancelled, Done() is nil)
+	PreCancel   bool // the context is already cancelled when the stage is created
 }
 
 // Aff is an affine map x -> A*x+B; composition is a non-commutative monoid with identity {1,0}.
@@ -127,6 +128,10 @@ func Scenario(c Cfg) {
 	ctx, cancel := context.WithCancel(context.Background())
 	if c.Background {
 		ctx, cancel = context.Background(), func() {}
+	}
+	if c.PreCancel {
+		env.Log("cancel")
+		cancel()
 	}
 	var closed env.Shared
 	mkin := func(tag string, from, n int) <-chan int {
